@@ -97,6 +97,17 @@ def run_case(case):
         lists = [[round(rng.uniform(-5, 5), 3) for _ in range(num)] for _ in range(nm)]
         nums = [rng.randint(1, 4) for _ in range(nm)]
         glists = [[round(rng.uniform(-5, 5), 3) for _ in range(nums[k])] for k in range(nm)]
+        shape_kind = rng.choice(["plain", "plain", "plain", "repeats", "fine"])
+        if shape_kind == "repeats":
+            # consecutive identical points (the scan still takes a checkpointed reading at each of them)
+            ranges = [(a, a) if rng.random() < 0.7 else (a, b) for a, b in ranges]
+            lists = [[lst[j // 2] for j in range(num)] for lst in lists]
+            glists = [[lst[j // 2] for j in range(len(lst))] for lst in glists]
+        elif shape_kind == "fine":
+            # steps that are tiny relative to the absolute position
+            ranges = [(8000.0 + a, 8000.0 + a + 0.004 * (b - a)) for a, b in ranges]
+            lists = [[8000.0 + 1e-3 * v for v in lst] for lst in lists]
+            glists = [[-5000.0 + 1e-3 * v for v in lst] for lst in glists]
         snake_flags = [False] + [rng.random() < 0.6 for _ in range(nm - 1)]
         expected = None
         exp_md = {}
